@@ -26,7 +26,7 @@ import os, sys, json, gzip, zlib, shutil, tempfile, itertools, copy, subprocess,
 from hypothesis import strategies as st
 
 from vlib.core import Sub
-from vlib.util import Violation, require, use_repo, same, canon, REPO
+from vlib.util import Violation, Inconclusive, require, use_repo, same, canon, REPO
 use_repo()
 
 from vlib import comps_c02 as C
@@ -670,6 +670,99 @@ def enumerate_bytes(tier):
             for b in range(0, n // BLOCK + 1):
                 yield {"fixed": i, "gz": gz, "block": b}
 
+# ----------------------------------------------------------------------------------------------- gz members ending on a read-block boundary
+GZBLOCK = 4096           # the step in which coba's restore reads a .gz log while looking for the last complete member
+_PADS = {}
+
+def pad_string(n):
+    """n characters that gzip cannot compress much (base64 of a sha256 chain): the experiment description used as padding"""
+    import hashlib, base64
+    out, h = [], b"c02-pad"
+    while 44 * len(out) < n:
+        h = hashlib.sha256(h).digest()
+        out.append(base64.b64encode(h).decode())
+    return "".join(out)[:n]
+
+def gz_member_size(dirpath, line):
+    """size of the gzip member the real DiskSink(batch=1) writes for one line (file name log.gz, as in the runs)"""
+    from coba.pipes import DiskSink
+    path = os.path.join(dirpath, "log.gz")
+    if os.path.exists(path): os.remove(path)
+    DiskSink(path, batch=1).write([line])
+    with open(path, "rb") as f:
+        data = f.read()
+    d = zlib.decompressobj(wbits=31)
+    d.decompress(data)
+    return len(data) - len(d.unused_data)
+
+def find_pads(fixed, wants):
+    """{(record index, wanted end offset): padding length} for the .gz log of FIXED[fixed]: the description (it only occurs in the
+    experiment record, i.e. record 1) is lengthened one incompressible character at a time until the member of the chosen record
+    ends exactly at the wanted offset. gzip length is not linear in the padding, hence the search (bounded); None = not found."""
+    import coba.json
+    key = (fixed, tuple(wants))
+    if key in _PADS: return _PADS[key]
+    out = {}
+    with Env() as env:
+        log, records = baseline(env, dict(FIXED[fixed], description=""), True)
+        exp = json.loads(records[1][2])
+        d = os.path.join(env.dir, "measure"); os.makedirs(d)
+        def size(p):
+            exp[1]["description"] = pad_string(p)
+            return gz_member_size(d, coba.json.dumps(exp, separators=(",", ":")))
+        size0 = records[1][1] - records[1][0]
+        ok = size(0) == size0
+        cache = {}
+        for idx, want in wants:
+            out[(idx, want)] = None
+            if not ok or idx < 1 or idx >= len(records) - 1: continue
+            need = want - records[idx][1] + size0           # the size the experiment member must have
+            if need < size0: continue
+            p = max(0, int((need - size0) / 0.78) - 80)
+            for _ in range(900):
+                if p not in cache: cache[p] = size(p)
+                if cache[p] == need:
+                    out[(idx, want)] = p; break
+                if cache[p] > need + 40: break
+                p += 1
+    _PADS[key] = out
+    return out
+
+def gzblock_targets(fixed, tier):
+    """(record index, multiple k, delta) choices: experiment record, a parameter record, I records; delta != 0 are controls"""
+    n = {2: 13, 5: 15}[fixed]            # number of records of the .gz log incl. the trailing empty member (checked in run_gzblock)
+    idxs = [1, 3, n // 2, n - 3] if tier == "quick" else list(range(1, n - 1))
+    ks = (1, 2) if tier == "quick" else (1, 2, 3)
+    for idx in idxs:
+        for k in ks:
+            yield idx, k, 0
+    for idx in (idxs[:2] if tier == "quick" else idxs):
+        for delta in (-1, 1):
+            yield idx, 1, delta
+
+def enumerate_gzblock(tier):
+    for fixed in ([5] if tier == "quick" else [5, 2]):
+        targets = list(gzblock_targets(fixed, tier))
+        pads = find_pads(fixed, [(idx, GZBLOCK * k + delta) for idx, k, delta in targets])
+        for idx, k, delta in targets:
+            yield {"fixed": fixed, "record": idx, "end": GZBLOCK * k + delta, "pad": pads[(idx, GZBLOCK * k + delta)]}
+
+def run_gzblock(case):
+    if case["pad"] is None:
+        raise Inconclusive("no padding found within the bound")
+    desc = dict(FIXED[case["fixed"]], description=pad_string(case["pad"]))
+    with Env() as env:
+        log, records = baseline(env, desc, True)
+        if case["record"] >= len(records) - 1 or records[case["record"]][1] != case["end"]:
+            raise Inconclusive("the cached padding no longer puts the member end on the wanted offset")
+        s_, e_, _ = records[case["record"]]
+        ks = sorted({k for k in offsets_quick(records, [0.5]) if k >= e_ - 1} | {s_ + 1, len(log)})
+        run_offsets(env, desc, True, log, records, ks)
+
+def classes_gzblock(case):
+    if case["pad"] is None: return ["no-padding-found"]
+    return ["member-end=%d*4096%+d" % (round(case["end"] / GZBLOCK), case["end"] - GZBLOCK * round(case["end"] / GZBLOCK)), "record=%d" % case["record"]]
+
 # =============================================================================================== evidence helpers
 def n_triples(desc):
     return len(C.triple_indices(desc))
@@ -746,5 +839,8 @@ SUBCHECKS = [
         what="REAL interruption: a child process running the experiment (plain / gz / '.gz' inside the path) dies by os._exit when evaluation n+1 starts; the file it left is resumed: the n finished triples must not be evaluated again, oracle (1)-(4)"),
     Sub(name="big", run=run_big, enumerate=enumerate_big, nontrivial=lambda c: True, classes=classes_big, classify=classify,
         quick_shards=1, thorough_shards=16, quick_budget_s=45, thorough_budget_s=150,
-        what="fixed experiments with logs of 290 KB and records of 66-200 KB: cuts leaving a partial final record of 65534..65538 / 131071..131073 / 131072+777 bytes, and first/middle/last byte and end of every record lying beyond the first 64 KiB (plain); 4095..4097 / 8191..8193 / trailer bytes of big members (gz)"),
+        what="fixed experiments with logs of 360 KB and records of 66-200 KB: cuts leaving a partial final record of 65534..65538 / 131071..131073 / 131072+777 bytes, and first/middle/last byte and end of every record lying beyond the first 64 KiB (plain); 4095..4097 / 8191..8193 / trailer bytes of big members (gz)"),
+    Sub(name="gzblock", run=run_gzblock, enumerate=enumerate_gzblock, nontrivial=lambda c: c["pad"] is not None and c["end"] % GZBLOCK == 0,
+        classes=classes_gzblock, classify=classify, quick_shards=1, thorough_shards=4, quick_budget_s=45, thorough_budget_s=150,
+        what=".gz logs padded (experiment description, searched one character at a time with the real DiskSink) until a chosen non-final member (experiment / parameter / I record) ends exactly at 4096*k, k=1,2 (controls +-1): resume from the complete log, from every record boundary and first/last/middle byte of every record behind that boundary"),
 ]
